@@ -279,6 +279,11 @@ pub fn build_full(
                 }
             }
             let raw_roots: Vec<VfsPath> = raw.iter().map(plain_root).collect();
+            let wrapped: Vec<VfsPath> = raw.iter().enumerate().map(|(i, r)| wrap(r.clone(), i)).collect();
+            // An overlay keeps no state of its own: whether it is constructed before or after the
+            // layers receive their content must not matter. Every other case constructs it FIRST.
+            let early = prepop.len() % 2 == 1;
+            let early_overlay = if early { Some(VfsPath::new(OverlayFS::new(&wrapped))) } else { None };
             for (li, p, n) in prepop {
                 let li = *li % raw.len();
                 // an embedded layer has its content already (see emb_prepop)
@@ -287,8 +292,7 @@ pub fn build_full(
                 }
                 write_entry(&raw_roots[li], &format!("{}{}", prefix, p), n)?;
             }
-            let wrapped: Vec<VfsPath> = raw.iter().enumerate().map(|(i, r)| wrap(r.clone(), i)).collect();
-            (VfsPath::new(OverlayFS::new(&wrapped)), raw_roots)
+            (early_overlay.unwrap_or_else(|| VfsPath::new(OverlayFS::new(&wrapped))), raw_roots)
         }
         Cfg::OvlSub(inner, n) => {
             let n = (*n).clamp(1, 4);
@@ -301,6 +305,15 @@ pub fn build_full(
                     prefix.push_str(ALT_NAMES[i % ALT_NAMES.len()]);
                 }
             }
+            // the overlay itself sits on sub-paths of ONE (possibly wrapped) filesystem; in every
+            // other case it is constructed BEFORE the layer directories exist (it has no state)
+            let shared = wrap(shared_fs, usize::MAX);
+            let mut layer_paths = vec![];
+            for i in 0..n {
+                layer_paths.push(shared.join(LAYER_DIRS[i]).map_err(|e| e.to_string())?);
+            }
+            let early = prepop.len() % 2 == 1;
+            let early_overlay = if early { Some(VfsPath::new(OverlayFS::new(&layer_paths))) } else { None };
             // clean per-layer views for inspection and pre-population
             let mut raw_roots = vec![];
             for i in 0..n {
@@ -312,13 +325,7 @@ pub fn build_full(
                 let li = *li % n;
                 write_entry(&raw_roots[li], &format!("{}{}", prefix, p), node)?;
             }
-            // the overlay itself sits on sub-paths of ONE (possibly wrapped) filesystem
-            let shared = wrap(shared_fs, usize::MAX);
-            let mut layer_paths = vec![];
-            for i in 0..n {
-                layer_paths.push(shared.join(LAYER_DIRS[i]).map_err(|e| e.to_string())?);
-            }
-            (VfsPath::new(OverlayFS::new(&layer_paths)), raw_roots)
+            (early_overlay.unwrap_or_else(|| VfsPath::new(OverlayFS::new(&layer_paths))), raw_roots)
         }
         other => {
             let fs = build_fs_lw(other, &mut scratch, leafwrap)?;
